@@ -88,13 +88,7 @@ def classify(out):
 
 def expected_kinds_ok(rule, impl_kinds):
     exp = gen_planted.RULES[rule]
-    for k in exp:
-        if k == "not_send_sync":
-            if not ({"not_send", "not_sync"} & impl_kinds):
-                return False
-        elif k not in impl_kinds:
-            return False
-    return True
+    return all(k in impl_kinds for k in exp)
 
 
 # ---- a second, independent reading of scope resolution (for the known-finding predicates) ---------
